@@ -746,6 +746,9 @@ func childMain(args []string) {
 		if err := json.Unmarshal(b, &ins); err != nil {
 			panic(err)
 		}
+		if v := os.Getenv("C01_CHAIN_HEIGHT"); v != "" {
+			fmt.Sscan(v, &chainHeight)
+		}
 		setup()
 		var out []string
 		for _, in := range ins {
@@ -823,6 +826,7 @@ func restartedProcessPart(c *fw.Ctx, ins []Input) {
 	runChild := func(args ...string) (string, error) {
 		cmd := exec.Command(exe, append([]string{"--c01child"}, args...)...)
 		cmd.Dir = dir
+		cmd.Env = append(os.Environ(), fmt.Sprintf("C01_CHAIN_HEIGHT=%d", chainHeight)) // same fork table as this worker
 		out, err := cmd.CombinedOutput()
 		s := string(out)
 		if len(s) > 1500 {
